@@ -38,7 +38,7 @@ fn oracle_all(case: &str, obs: &str, with_real: bool) -> String {
 }
 
 fn oracle(case: &str, obs: &str) -> String {
-    if !case.contains("((trapexit ((probe 99)))") || !obs.starts_with("trace=") {
+    if !case.contains("((trapexit ((probe 99)") || !obs.starts_with("trace=") {
         return "-".into();
     }
     let trace = obs
